@@ -122,6 +122,23 @@ def contracts(T: Types, reg: Registry, ctx, pid="C01"):
         ],
         properties=[pid],
     )
+    def lock_ownership(c):
+        """kind-5 obligation: every read/write of the record map and the status index happens while holding the lock that
+        _get_invocation_lock returned for *this* invocation id"""
+        evs = [e for e in c.st.events if isinstance(e, dict)]
+        got = [e for e in evs if e.get("ev") == "call" and e["key"].endswith("MemOrchestrator._get_invocation_lock")]
+        heap = [e for e in evs if e.get("ev") == "heap" and e["field"] in ("invocation_status_record", "status_index")]
+        if len(got) != 1 or not heap:
+            return z3.BoolVal(False)
+        lock_term = got[0]["result"].term
+        held = all(any(p[0] == "lock" and z3.eq(p[1], lock_term) for p in e["perms"]) for e in heap)
+        calls_inside = [e for e in evs if e.get("ev") == "call" and e["key"].endswith("_interanl_atomic_status_transition")]
+        held_calls = all(any(p[0] == "lock" and z3.eq(p[1], lock_term) for p in e.get("perms", ())) for e in calls_inside)
+        return z3.And(z3.BoolVal(held and held_calls), got[0]["args"]["invocation_id"].term == c.arg("invocation_id"))
+    atomic.trace_fields = ("invocation_status_record", "status_index")
+    for case in atomic.cases:
+        case.ensures = list(case.ensures) + [("C02:ownership:read-validate-write-under-the-lock-of-this-invocation-id", lock_ownership)]
+
     internal = Contract(
         key=f"{MO}:MemOrchestrator._interanl_atomic_status_transition", shape="MemOrchestrator",
         params={"invocation_id": ID, "prev_status_record": OREC, "new_record": T.Record}, result=T.Record,
